@@ -219,7 +219,13 @@ def install(it):
         return h
     reg(['cos', 'llvm.cos.f64'], trig('cos', math.cos, [1.0, 0.0, -1.0, 0.0]))
     reg(['sin', 'llvm.sin.f64'], trig('sin', math.sin, [0.0, 1.0, 0.0, -1.0]))
-    reg('tan', m1('tan', math.tan))
+    def sym_tan(it, x):
+        # tan(acos(c)) = sqrt(1 - c^2) / c   (identity on (-1, 1] \\ {0}; listed in the trusted base)
+        if type(x) is Node and x.op == 'uf' and x.args[0] == 'acos':
+            c = x.args[1]
+            return S.div(S.sqrt(S.sub(S.ONE, S.mul(c, c))), c)
+        return S.uf('tan', x)
+    reg('tan', m1('tan', math.tan, sym_tan))
     def c_log(x):
         if x > 0: return math.log(x)
         return -math.inf if x == 0 else math.nan
